@@ -311,7 +311,8 @@ func (c *ConcCase) Exec(t *eng.T) {
 	t.Nontrivial()
 	var lastW *world
 	var results [][]opResult
-	sc := xplore.Scenario{Name: "cache-not-linearisable", Make: func() ([]func() any, [][2]uintptr, func([]any) string) {
+	var curRoots map[string]any
+	sc := xplore.Scenario{Name: "cache-not-linearisable", Rescan: func() [][2]uintptr { return deep.Ranges(curRoots) }, Make: func() ([]func() any, [][2]uintptr, func([]any) string) {
 		w := newWorld(true)
 		lastW = w
 		results = make([][]opResult, len(c.Progs))
@@ -341,6 +342,7 @@ func (c *ConcCase) Exec(t *eng.T) {
 		for _, v := range pongo2.VerifPkgVars() {
 			roots["pkg."+v.Name] = v.Ptr
 		}
+		curRoots = roots
 		shared := deep.Ranges(roots)
 		judge := func(res []any) string {
 			fetches := map[string]int{}
